@@ -195,8 +195,16 @@ def slice_prog_budget(ctx):
 import gens2, histgen
 
 
+def _prime(i, l):
+    """every third evaluation case runs `primed` (tools/evalimpl.py): on a parser that retains its trees, after one earlier
+    evaluation of the same text for another names mapping - the model still evaluates the text once, from nothing"""
+    if i % 3 == 1 and l.startswith('EVAL ') and '(primed' not in l:
+        return l + ' (primed %s)' % 'abc'[(i // 3) % 3]
+    return l
+
+
 def _eval_slice(name, cases, rule, nontriv_pred=None):
-    lines = [c[0] for c in cases]
+    lines = [_prime(i, c[0]) for i, c in enumerate(cases)]
     descr = [c[1] for c in cases]
     io, mo, d, dt = corr.compare(lines)
     pred = nontriv_pred or (lambda a: a.startswith('ok') or a.startswith('err'))
